@@ -169,7 +169,7 @@ PROPS = {
         'lone tap-hold key: 7 variants x T in {2,5,200} x concurrent on/off x tap-repress window {0,3} x hold durations {0,1,T-2..T+2}; exhaustive physically consistent schedules (<= N events) over the tap-hold key and two plain keys with gaps {0,1,T-1,T,T+1}; random interleavings of two tap-hold keys with plain keys incl. bursts; non-trivial = output changed at least twice; distinct = distinct case line. Oracle on the implementation trace: exactly one tap/hold/timeout marker effect per press, decision kind and tick for a lone key (closed form), plain keys output in press order',
         'C05o'),
     'C17': _lay_props(['KVerif.Props.C17'],
-        'one tap-dance key (lists of 1-4 marker keys; a layer-while-held at any position; a tap-hold at the last position; the empty list the parser accepts), lazy and eager, T in {3,10,200}, rapid-event-delay 0 / 2 / default, and one plain key that has another code on the layer the dance can hold: exhaustive physically consistent schedules (<= N events) over the two keys with gaps {0,1,T-1,T,T+1} (beyond N_full events: gaps {1,T-1,T}), plus random longer schedules incl. bursts > 32 events; non-trivial = output changed at least twice; distinct = distinct case line. Oracle on the implementation trace: a reference machine written from the statement (deadline = T ticks after the last counted tap was seen; ends at the deadline, on another key\'s press, or when the list is exhausted; the N-th action pressed once and held until the release of the last counted tap; uncounted events stay queued in order; eager: each press performs the next action) must reproduce the whole trace (which keys are down after every tick), so: exactly one marker per lazy dance and the right one, one per tap when eager, the interrupting key after the chosen action (on the held layer if the action is a layer)',
+        'one tap-dance key (lists of 1-4 marker keys; a layer-while-held at any position; a tap-hold at the last position; the empty list, which the parser must reject), lazy and eager, T in {3,10,200}, rapid-event-delay 0 / 2 / default, and one plain key that has another code on the layer the dance can hold: exhaustive physically consistent schedules (<= N events) over the two keys with gaps {0,1,T-1,T,T+1} (beyond N_full events: gaps {1,T-1,T}), plus random longer schedules incl. bursts > 32 events; non-trivial = output changed at least twice; distinct = distinct case line. Oracle on the implementation trace: a reference machine written from the statement (deadline = T ticks after the last counted tap was seen; ends at the deadline, on another key\'s press, or when the list is exhausted; the N-th action pressed once and held until the release of the last counted tap; uncounted events stay queued in order; eager: each press performs the next action) must reproduce the whole trace (which keys are down after every tick), so: exactly one marker per lazy dance and the right one, one per tap when eager, the interrupting key after the chosen action (on the held layer if the action is a layer)',
         'C17o'),
     'C04': {
         'lean_modules': ['KVerif.Props.C04'],
@@ -1414,7 +1414,7 @@ def _c08_stats(cases, impl):
 
 PROPS['C08'] = _lay_props(
     ['KVerif.Props.C08'],
-    'macro bodies from the macro grammar (keys, delays, output chords, unicode / mouse items, plain groups, groups held under 1-2 modifier prefixes written S-(..) or S- (..), nesting depth <= 3, <= 20 items) in all eight macro list actions (macro, -release-cancel, -cancel-on-press, -release-cancel-and-cancel-on-press, each also as macro-repeat...); every body of <= 2 top-level items over a 4-atom alphabet with one level of nesting (exhaustive); bodies the parser must refuse (bare prefix without list, delay 0 / 65536, O- prefix, other actions, empty body) and boundary delays; histories: one activation, several spaced or overlapping activations, key held over several repeats, plain keys typed meanwhile, random consistent histories over 1-3 macros sharing keys and modifiers; 2-6 macros with their own key pools tapped 1-20 ticks apart while the first still holds its modifier (<= 4: all must play; 5-6: ring eviction); cancellation at EVERY tick offset of the body: CancelSequences (patched in at layout level), release of a release-cancel macro, another press during a cancel-on-press macro. LAY cases run the bare keyberon Layout, KAN cases a whole Kanata (handle_input_event / tick_ms) so that the cancellation glue runs. Compared per tick: key list, custom events (LAY), final private-state digest (+ cancel countdown), the number of ring evictions observed from outside, and the SequenceEvent list the real parser produced for every macro against the parser model run on the body tree. non-trivial = the key list changed at least twice; distinct = distinct case line. Oracle on the implementation trace (Spec/Macro.lean): projection of the key-list trace onto each macro\'s own keys = its spelling run by run (order, one step per tick, spelled delays at least), exactly one run per activation (plain), restarts only while held (repeat), prefix-then-released under cancellation; all macro keys up at the end; plain keys in press order',
+    'macro bodies from the macro grammar (keys, delays, output chords, unicode / mouse items, plain groups, groups held under 1-2 modifier prefixes written S-(..) or S- (..), nesting depth <= 3, <= 20 items) in all eight macro list actions (macro, -release-cancel, -cancel-on-press, -release-cancel-and-cancel-on-press, each also as macro-repeat...); every body of <= 2 top-level items over a 4-atom alphabet with one level of nesting (exhaustive); bodies the parser must refuse (bare prefix without list, delay 0 / 65536, O- prefix, other actions, empty body) and boundary delays; histories: one activation, several spaced or overlapping activations, key held over several repeats, plain keys typed meanwhile, random consistent histories over 1-3 macros sharing keys and modifiers; 2-6 macros with their own key pools tapped 1-20 ticks apart while the first still holds its modifier (<= 4: all must play in full; 5-6: the ring of 4 evicts the oldest, which is cut short with its keys released - documented capacity limit); cancellation at EVERY tick offset of the body: CancelSequences (patched in at layout level), release of a release-cancel macro, another press during a cancel-on-press macro. LAY cases run the bare keyberon Layout, KAN cases a whole Kanata (handle_input_event / tick_ms) so that the cancellation glue runs. Compared per tick: key list, custom events (LAY), final private-state digest (+ cancel countdown), the number of ring evictions observed from outside, and the SequenceEvent list the real parser produced for every macro against the parser model run on the body tree. non-trivial = the key list changed at least twice; distinct = distinct case line. Oracle on the implementation trace (Spec/Macro.lean): projection of the key-list trace onto each macro\'s own keys = its spelling run by run (order, one step per tick, spelled delays at least), exactly one run per activation (plain), restarts only while held (repeat), prefix-then-released under cancellation and, when the harness observed a ring eviction on the real code (EV>0), for the macros cut short by it; all macro keys up at the end in every case; plain keys in press order',
     'C08o',
     extra_trusted=['Model/MacroExpand.lean as a transcription of parse_macro / parse_macro_item_impl / the wrapper forms (checked differentially against the real parser on every case), the classification of body items into key / chord / custom / list / prefix is written by the harness generator together with the config text',
                    'Model/MacroCancel.lean as a transcription of the three cancellation sites of src/kanata/mod.rs (checked differentially on whole-Kanata cases)',
